@@ -8,7 +8,9 @@ import (
 	"strings"
 	"time"
 
+	"github.com/gcash/bchd/wire"
 	"github.com/gcash/bchutil"
+	"github.com/gcash/bchutil/bloom"
 	"github.com/gcash/bchutil/jsonpb"
 	pb "github.com/gcash/bchutil/jsonpb/testpb"
 )
@@ -48,6 +50,36 @@ func execC08Inner(c Case) string {
 			return "err"
 		}
 		return "ok:" + hx(t.Hash()[:4])
+	case "scantime": // scantime <k1> <k2>: cost of scanning a reversed 2-input chain must not explode with its length
+		t := func(k int) time.Duration {
+			txs := []*wire.MsgTx{}
+			for j := 0; j < k; j++ {
+				tx := wire.NewMsgTx(1)
+				tx.AddTxOut(wire.NewTxOut(0, []byte{0x51}, wire.TokenData{}))
+				tx.AddTxOut(wire.NewTxOut(1, []byte{0x52}, wire.TokenData{}))
+				if j == 0 {
+					tx.AddTxIn(wire.NewTxIn(&wire.OutPoint{Index: 9}, nil))
+				} else {
+					ph := txs[j-1].TxHash()
+					tx.AddTxIn(wire.NewTxIn(&wire.OutPoint{Hash: ph, Index: 0}, nil))
+					tx.AddTxIn(wire.NewTxIn(&wire.OutPoint{Hash: ph, Index: 1}, nil))
+				}
+				txs = append(txs, tx)
+			}
+			blk := wire.NewMsgBlock(&wire.BlockHeader{})
+			for j := k - 1; j >= 0; j-- {
+				blk.AddTransaction(txs[j])
+			}
+			f := bloom.LoadFilter(wire.NewMsgFilterLoad(bytesFF(64), 3, 0, wire.BloomUpdateAll))
+			st := time.Now()
+			bloom.GetMatchedIndices(bchutil.NewBlock(blk), f)
+			return time.Since(st)
+		}
+		t1, t2 := t(atoi(c.Args[0])), t(atoi(c.Args[1]))
+		if t2 > 250*time.Millisecond && t2 > 100*t1 {
+			return "SUPERPOLY " + t1.String() + " " + t2.String()
+		}
+		return "ok"
 	case "bcb": // bech32.ConvertBits (owner C07 calls it "cb")
 		return props["C07"].Exec(Case{Op: "cb", Cls: c.Cls, Args: c.Args})
 	}
@@ -106,6 +138,7 @@ func genC08(r *Rng, tier string, emit func(Case)) {
 	e("hist", "empty-filter", "-", "1", "0", "0", "m:00;a:00;m:00;p:"+strings.Repeat("00", 32)+":0")
 	e("json", "hetero-array", hs(`{"a":["00",1]}`))
 	e("json", "hetero-array2", hs(`{"block":{"info":{"hash":["00",{"x":null},[1]]}}}`))
+	e("scantime", "chain", "12", "22")
 	e("gcsraw", "hugeN", strings.Repeat("00", 16), "19", "784931", "-", "feffffffff00", "00;seq:3:1")
 	// ---- sweep of the other properties' near-valid / malformed streams
 	sub := func(id string, keep map[string]bool, rename map[string]string) {
